@@ -68,6 +68,8 @@ func loadCatalogue(verif string) ([]Control, error) {
 		}
 		var m struct {
 			ID     string   `json:"id"`
+			Kind   string   `json:"kind"`
+			Files  []string `json:"files"`
 			Breaks string   `json:"breaks_property"`
 			Prop   string   `json:"property"`
 			Also   []string `json:"also"`
@@ -75,6 +77,20 @@ func loadCatalogue(verif string) ([]Control, error) {
 			Needs2 string   `json:"needs"`
 		}
 		if json.Unmarshal(b, &m) != nil {
+			continue
+		}
+		if m.Kind == "negative" {
+			// a behaviour-preserving refactoring: every property's check must stay silent on it
+			var all16 []string
+			for id := range Registry {
+				all16 = append(all16, id)
+			}
+			sort.Strings(all16)
+			id := m.ID
+			if id == "" {
+				id = filepath.Base(filepath.Dir(mf))
+			}
+			all = append(all, Control{ID: "seeded/" + id, Kind: "negative", Properties: all16, Note: "refactoring of " + strings.Join(m.Files, ", "), PatchFile: filepath.Join(filepath.Dir(mf), "patch.diff")})
 			continue
 		}
 		prop := m.Breaks
